@@ -149,6 +149,9 @@ func Main() (retcode int) { //nolint:funlen // we do have quite a lot of flags a
 	options.All = true
 	s := eval.NewState()
 	s.NoReg = *noRegister
+	if options.MaxDepth > 0 {
+		s.MaxDepth = options.MaxDepth
+	}
 	if options.ShebangMode {
 		script := flag.Arg(0)
 		// remaining := flag.Args()[1:] // actually let's also pass the name of the script as arg[0]
@@ -191,6 +194,7 @@ func Main() (retcode int) { //nolint:funlen // we do have quite a lot of flags a
 			ns := eval.NewState()
 			ns.Out = s.Out
 			ns.LogOut = s.LogOut
+			ns.MaxDepth = s.MaxDepth
 			s = ns
 		}
 	}
